@@ -1784,7 +1784,35 @@ class Engine:
                 patterns=[z3.MultiPattern(rs(a, b, s_), pt(a, s_, k))]))
             self.facts.append(Vm.forall([a, b, r], z3.Select(rs(a, b, 1), r) == z3.And(a <= r, r < b),
                                         patterns=[z3.Select(rs(a, b, 1), r)]))
-            self.assumptions.add('frozenset(range(a,b,s)) is the set {a + k*s | k >= 0, a + k*s < b} (witness-form axioms)')
+            # derived fact RU (residue uniqueness): instance of the witness axiom + the arithmetic lemma
+            # `a + w1*s == a2 + w2*s and 0 <= a, a2 < s  ==>  a == a2`, which is proved as a stand-alone
+            # quantifier-free obligation (contracts/c06_assignment.py: lemma residue_unique)
+            a2, b2 = z3.Ints('ra2 rb2')
+            self.facts.append(z3.ForAll([a, b, a2, b2, s_, r], z3.Implies(
+                z3.And(z3.Select(rs(a, b, s_), r), z3.Select(rs(a2, b2, s_), r), a >= 0, a < s_, a2 >= 0, a2 < s_),
+                a == a2), patterns=[z3.MultiPattern(z3.Select(rs(a, b, s_), r), z3.Select(rs(a2, b2, s_), r))]))
+            # derived facts RU3 / RU4: for 0 <= a < s, membership of r in range(a, b, s) is `r % s == a`
+            # (same arithmetic lemma; links the set view with Python's % on ranks)
+            I_ = z3.IntSort()
+            if 'pymod' not in self.uf_cache:
+                self.uf_cache['pydiv'] = z3.Function('pydiv', I_, I_, I_)
+                self.uf_cache['pymod'] = z3.Function('pymod', I_, I_, I_)
+            md = self.uf_cache['pymod']
+            self.facts.append(z3.ForAll([a, b, s_, r], z3.Implies(
+                z3.And(z3.Select(rs(a, b, s_), r), a >= 0, a < s_), md(r, s_) == a),
+                patterns=[z3.Select(rs(a, b, s_), r)]))
+            self.facts.append(z3.ForAll([a, b, s_, r], z3.Implies(
+                z3.And(r >= 0, r < b, s_ > 0, md(r, s_) == a), z3.Select(rs(a, b, s_), r)),
+                patterns=[z3.MultiPattern(rs(a, b, s_), md(r, s_))]))
+            # derived fact RU2 (one member per window): two members of the same strided range that lie in
+            # one contiguous window no longer than the stride are equal (lemma window_unique)
+            r2, lo_, hi_ = z3.Ints('rr2 rlo rhi')
+            self.facts.append(z3.ForAll([a, b, s_, r, r2, lo_, hi_], z3.Implies(
+                z3.And(z3.Select(rs(a, b, s_), r), z3.Select(rs(a, b, s_), r2), z3.Select(rs(lo_, hi_, 1), r),
+                       z3.Select(rs(lo_, hi_, 1), r2), hi_ <= lo_ + s_, s_ > 0),
+                r == r2), patterns=[z3.MultiPattern(z3.Select(rs(a, b, s_), r), z3.Select(rs(a, b, s_), r2),
+                                                    z3.Select(rs(lo_, hi_, 1), r), z3.Select(rs(lo_, hi_, 1), r2))]))
+            self.assumptions.add('frozenset(range(a,b,s)) is the set {a + k*s | k >= 0, a + k*s < b} (witness-form axioms + derived residue-uniqueness / window-uniqueness facts)')
         return self.uf_cache['rangeset']
 
     def fop(self, op, a, b):
